@@ -287,6 +287,12 @@ def run_algebra(ctx, rng, idx):
     fx, fy = int(rng.integers(1, 6)), int(rng.integers(1, 6))
     nxs = rng.integers(2, 8, size=fx)
     nys = rng.integers(2, 8, size=fy)
+    # state counts as callers hold them: the rotamer code returns int16
+    # arrays, `X.max() + 1` of compactly stored assignments is an int8 /
+    # uint8 scalar
+    ndt = [np.int64, np.int64, np.int32, np.int16, np.int8, np.uint8][
+        int(rng.integers(0, 6))]
+    nxs, nys = nxs.astype(ndt), nys.astype(ndt)
     X = np.stack([rng.integers(0, n, size=T) for n in nxs], axis=1
                  ).astype(np.int32)
     Y = np.stack([rng.integers(0, n, size=T) for n in nys], axis=1
@@ -379,7 +385,8 @@ def run_algebra(ctx, rng, idx):
         if normalize:
             exp = exp / np.log(np.minimum(
                 np.broadcast_to(np.asarray(n_x_arg), (fx,))[:, None],
-                np.broadcast_to(np.asarray(n_y_arg), (fy,))[None, :]))
+                np.broadcast_to(np.asarray(n_y_arg), (fy,))[None, :]
+            ).astype(np.float64))
         if Mm.shape != exp.shape or np.abs(Mm - exp).max() > tol:
             bad('mi_matrix-wrong[%s]' % ('normalized' if normalize
                                          else 'pooled'),
@@ -423,7 +430,7 @@ def run_algebra(ctx, rng, idx):
     try:
         fz = M.copy()
         cc = mi.channel_capacity_normalization(M, nxs, nys)
-        exp = M / np.log(np.minimum(nxs[:, None], nys[None, :]))
+        exp = M / np.log(np.minimum(nxs[:, None], nys[None, :]).astype(np.float64))
         if not np.array_equal(M, fz):
             bad('ccn-mutates-input', 'mi modified in place')
         if cc.shape != exp.shape or np.abs(cc - exp).max() > tol:
@@ -448,7 +455,7 @@ def run_algebra(ctx, rng, idx):
                 continue
             exp = np.maximum(Mxx, 0)
             if normalize:
-                exp = exp / np.log(np.minimum(nxs[:, None], nxs[None, :]))
+                exp = exp / np.log(np.minimum(nxs[:, None], nxs[None, :]).astype(np.float64))
             if W.shape != exp.shape or np.abs(W - exp).max() > 1e-9:
                 bad('weighted-differs[%s]' % ('normalized' if normalize
                                               else 'plain'),
